@@ -77,20 +77,37 @@ fn main() {
     }));
     let fin = std::io::BufReader::new(std::fs::File::open(&argv[1]).expect("open cases"));
     let mut fout = std::io::BufWriter::new(std::fs::File::create(&argv[2]).expect("create answers"));
+    // every case runs in its own thread under a watchdog: a call that does not return (an unbounded loop introduced
+    // by a change of the library) is answered with `Ptimeout` and the run goes on; the abandoned thread dies with the
+    // process.  VERIF_CASE_TIMEOUT (seconds, default 10); after three timeouts the limit drops to 2 s.
+    let limit: u64 = std::env::var("VERIF_CASE_TIMEOUT").ok().and_then(|v| v.parse().ok()).unwrap_or(10);
+    let mut timeouts = 0u32;
     for line in fin.lines() {
         let line = line.unwrap();
-        let toks: Vec<&str> = line.split_whitespace().collect();
-        if toks.len() < 3 { continue; }
-        let (id, elt, kind) = (toks[0], toks[1], toks[2]);
-        let mut args = Args::new(toks[3..].to_vec());
-        let mut out = Out::new();
-        let r = catch_unwind(AssertUnwindSafe(|| dispatch(elt, kind, &mut args, &mut out)));
-        if r.is_err() {
-            let msg = LAST_PANIC.with(|p| p.borrow().clone());
-            out.toks.push(format!("P{}", classify(&msg)));
-            if classify(&msg) == "harness" { out.toks.push(format!("#{}", msg.replace(' ', "_"))); }
+        let id = match line.split_whitespace().next() { Some(t) => t.to_string(), None => continue };
+        if line.split_whitespace().count() < 3 { continue; }
+        let (tx, rx) = std::sync::mpsc::channel::<String>();
+        let l2 = line.clone();
+        let h = std::thread::Builder::new().stack_size(256 << 20).spawn(move || {
+            let toks: Vec<&str> = l2.split_whitespace().collect();
+            let (elt, kind) = (toks[1], toks[2]);
+            let mut args = Args::new(toks[3..].to_vec());
+            let mut out = Out::new();
+            let r = catch_unwind(AssertUnwindSafe(|| dispatch(elt, kind, &mut args, &mut out)));
+            if r.is_err() {
+                let msg = LAST_PANIC.with(|p| p.borrow().clone());
+                out.toks.push(format!("P{}", classify(&msg)));
+                if classify(&msg) == "harness" { out.toks.push(format!("#{}", msg.replace(' ', "_"))); }
+            }
+            let _ = tx.send(out.toks.join(" "));
+        }).expect("spawn case thread");
+        let secs = if timeouts >= 3 { 2 } else { limit };
+        match rx.recv_timeout(std::time::Duration::from_secs(secs)) {
+            Ok(ans) => { let _ = h.join(); writeln!(fout, "{} {}", id, ans).unwrap(); }
+            Err(_) => { timeouts += 1; writeln!(fout, "{} Ptimeout", id).unwrap(); }
         }
-        writeln!(fout, "{} {}", id, out.toks.join(" ")).unwrap();
     }
     fout.flush().unwrap();
+    drop(fout);
+    std::process::exit(0);      // abandoned (timed-out) case threads end here
 }
